@@ -494,8 +494,33 @@ static inline bool match_signature(const Operand_& o0, const Operand_& o1, uint3
   if (!(inst_flags & (InstDB::kInstFlagLong | InstDB::kInstFlagNarrow)))
     return o0.signature() == o1.signature();
 
-  // TODO: [ARM] Something smart to validate this.
-  return true;
+  // Long: o0 is the wide operand, Narrow: o1 is the wide operand. The narrow operand is the significant one (its
+  // register type and element type are validated by the caller), the wide operand is derived from it here.
+  const Vec& wide   = (inst_flags & InstDB::kInstFlagLong) ? o0.as<Vec>() : o1.as<Vec>();
+  const Vec& narrow = (inst_flags & InstDB::kInstFlagLong) ? o1.as<Vec>() : o0.as<Vec>();
+
+  if (!wide.is_vec() || !narrow.is_vec() || wide.has_element_index() || narrow.has_element_index())
+    return false;
+
+  // Scalar form (sqdmull s, h, h; sqxtn b, h; pmull q, d, d) - the wide register is the next scalar register type.
+  if (!narrow.has_element_type())
+    return !wide.has_element_type() && uint32_t(wide.reg_type()) == uint32_t(narrow.reg_type()) + 1u;
+
+  // 64-bit elements widen to the whole 128-bit register (pmull2 q, v.2d, v.2d).
+  if (narrow.element_type() == VecElementType::kD)
+    return wide.is_vec128() && !wide.has_element_type();
+
+  // Vector form - elements of the wide operand are twice as wide; the wide operand is a 128-bit vector except
+  // for pairwise long operations (saddlp, sadalp, ...), which keep the vector width.
+  RegType wide_reg_type = (inst_flags & InstDB::kInstFlagPair) ? narrow.reg_type() : RegType::kVec128;
+  if (wide.reg_type() != wide_reg_type)
+    return false;
+
+  // A single 64-bit element (`.1d`) can be also written as a plain `d` register.
+  if (wide_reg_type == RegType::kVec64 && narrow.element_type() == VecElementType::kS && !wide.has_element_type())
+    return true;
+
+  return uint32_t(wide.element_type()) == uint32_t(narrow.element_type()) + 1u;
 }
 
 static inline bool match_signature(const Operand_& o0, const Operand_& o1, const Operand_& o2, uint32_t inst_flags) noexcept {
@@ -1581,6 +1606,10 @@ Error Assembler::_emit(InstId inst_id, const Operand_& o0, const Operand_& o1, c
         uint64_t shift_value = o2.as<Imm>().value_as<uint64_t>();
 
         if (shift_type > uint32_t(ShiftOp::kROR) || shift_value >= op_size)
+          goto InvalidImmediate;
+
+        // NEG|NEGS are SUB|SUBS (shifted register, bit 24 set), where ROR is reserved; only MVN (ORN) allows it.
+        if (shift_type == uint32_t(ShiftOp::kROR) && (op_data.opcode & B(24)))
           goto InvalidImmediate;
 
         opcode.add_imm(shift_type, 22);
@@ -2928,7 +2957,7 @@ Case_BaseLdurStur:
         if (q > 1)
           goto InvalidInstruction;
 
-        if (o0.as<Vec>().has_element_type())
+        if (o0.as<Vec>().has_element_type() || o1.as<Vec>().has_element_index())
           goto InvalidInstruction;
 
         // This operation is only defined for:
@@ -3010,6 +3039,10 @@ Case_BaseLdurStur:
           uint32_t sz;
 
           if (!pick_fp_opcode(o0.as<Vec>(), op_data.element_scalar_op(), InstDB::kHF_D, op_data.element_vector_op(), InstDB::kHF_D, &opcode, &sz))
+            goto InvalidInstruction;
+
+          // The element operand is `Vm.<T>[index]` where T is the element size of the operation (H, S, or D).
+          if (!o2.as<Reg>().is_vec128() || diff(o2.as<Vec>().element_type(), VecElementType::kH) != sz)
             goto InvalidInstruction;
 
           if (sz == 0 && o2.as<Reg>().id() > 15)
@@ -3296,6 +3329,9 @@ Case_BaseLdurStur:
         };
 
         uint32_t type_opc = table[(dst_sz << 2) | src_sz];
+        if (type_opc == 0xFFu)
+          goto InvalidInstruction;
+
         opcode.reset(0b0001111000100010010000 << 10);
         opcode.add_imm(type_opc >> 4, 22);
         opcode.add_imm(type_opc & 15, 15);
@@ -3327,6 +3363,9 @@ Case_BaseLdurStur:
         const Vec& rl = (inst_flags & InstDB::kInstFlagLong) ? o0.as<Vec>() : o1.as<Vec>();
         const Vec& rn = (inst_flags & InstDB::kInstFlagLong) ? o1.as<Vec>() : o0.as<Vec>();
 
+        if (rl.has_element_index() || rn.has_element_index())
+          goto InvalidInstruction;
+
         uint32_t q = diff(rn.reg_type(), RegType::kVec64);
         if (uint32_t(opcode.has_q()) != q)
           goto InvalidInstruction;
@@ -3356,7 +3395,7 @@ Case_BaseLdurStur:
           uint32_t x = op_gp.as<Reg>().is_gp64();
           uint32_t type = diff(op_vec.as<Reg>().reg_type(), RegType::kVec16);
 
-          if (type > 2u)
+          if (type > 2u || op_vec.as<Vec>().has_element_type())
             goto InvalidInstruction;
 
           type = (type - 1u) & 0x3;
@@ -3388,6 +3427,9 @@ Case_BaseLdurStur:
         if (op_gp.as<Reg>().is_gp() && op_vec.as<Reg>().is_vec()) {
           uint32_t x = op_gp.as<Reg>().is_gp64();
           uint32_t type = diff(op_vec.as<Reg>().reg_type(), RegType::kVec16);
+
+          if (type > 2u || op_vec.as<Vec>().has_element_type())
+            goto InvalidInstruction;
 
           uint32_t scale_limit = 32u << x;
           if (scale > scale_limit)
@@ -3447,7 +3489,9 @@ Case_BaseLdurStur:
 
         if (uint32_t(o0.as<Reg>().reg_type()) != uint32_t(o1.as<Reg>().reg_type()) + q_is_optional ||
             uint32_t(o0.as<Vec>().element_type()) != op_data.ta ||
-            uint32_t(o1.as<Vec>().element_type()) != op_data.tb)
+            uint32_t(o1.as<Vec>().element_type()) != op_data.tb ||
+            o0.as<Vec>().has_element_index() ||
+            o1.as<Vec>().has_element_index())
           goto InvalidInstruction;
 
         if (!o2.as<Vec>().has_element_index()) {
@@ -3459,7 +3503,7 @@ Case_BaseLdurStur:
           goto EmitOp_Rd0_Rn5_Rm16;
         }
         else {
-          if (uint32_t(o2.as<Vec>().element_type()) != op_data.tElement)
+          if (uint32_t(o2.as<Vec>().element_type()) != op_data.tElement || !o2.as<Reg>().is_vec128())
             goto InvalidInstruction;
 
           if (o2.as<Reg>().id() > 15)
@@ -3611,7 +3655,8 @@ Case_BaseLdurStur:
             uint32_t q = diff(o0.as<Vec>().reg_type(), RegType::kVec64);
             uint32_t sz = diff(o0.as<Vec>().element_type(), VecElementType::kH);
 
-            if (q > 1 || sz > 2)
+            // There is no `.1d` form (only `.2d`), and no element index.
+            if (q > 1 || sz > 2 || (sz == 2 && q == 0) || o0.as<Vec>().has_element_index())
               goto InvalidInstruction;
 
             static const uint32_t sz_bits_table[3] = { B(11), 0, B(29) };
@@ -3646,7 +3691,7 @@ Case_BaseLdurStur:
           RegTraits<RegType::kVec128>::kSignature | (Vec::kSignatureElementD)
         };
 
-        if (o1.signature() != szSignatures[sz])
+        if (o0.as<Vec>().has_element_type() || o1.signature() != szSignatures[sz])
           goto InvalidInstruction;
 
         static const uint32_t sz_bits_table[] = { B(29), 0, B(22) };
@@ -3688,6 +3733,9 @@ Case_BaseLdurStur:
         // The first destination operand is scalar, which matches element-type of source vectors.
         uint32_t L = (inst_flags & InstDB::kInstFlagLong) != 0;
         if (diff(o0.as<Vec>().reg_type(), RegType::kVec8) != diff(o1.as<Vec>().element_type(), VecElementType::kB) + L)
+          goto InvalidInstruction;
+
+        if (o0.as<Vec>().has_element_type() || o1.as<Vec>().has_element_index())
           goto InvalidInstruction;
 
         SizeOp size_op = element_type_to_size_op(op_data.vec_op_type, o1.as<Reg>().reg_type(), o1.as<Vec>().element_type());
@@ -3790,6 +3838,9 @@ Case_BaseLdurStur:
         if (!check_signature(o0, o1) || !o0.as<Reg>().is_vec128() || uint32_t(o0.as<Vec>().element_type()) != uint32_t(o2.as<Vec>().element_type()) + 1u)
           goto InvalidInstruction;
 
+        if (o0.as<Vec>().has_element_index() || o2.as<Vec>().has_element_index())
+          goto InvalidInstruction;
+
         opcode.reset(op_data.opcode());
         opcode.add_imm(size_op.qs(), 30);
         opcode.add_imm(size_op.scalar(), 28);
@@ -3825,6 +3876,10 @@ Case_BaseLdurStur:
         else {
           SizeOp size_op = element_type_to_size_op(op_data.element_vec_type, sop.as<Reg>().reg_type(), sop.as<Vec>().element_type());
           if (!size_op.is_valid())
+            goto InvalidInstruction;
+
+          // The element operand is `Vm.<T>[index]` where T is the (narrow) element size of the operation.
+          if (!o2.as<Reg>().is_vec128() || diff(o2.as<Vec>().element_type(), VecElementType::kB) != size_op.size())
             goto InvalidInstruction;
 
           uint32_t element_index = o2.as<Vec>().element_index();
@@ -3926,7 +3981,7 @@ Case_BaseLdurStur:
       const InstDB::EncodingData::ISimdPair& op_data = InstDB::EncodingData::iSimdPair[encoding_index];
 
       if (isign4 == ENC_OPS2(Reg, Reg) && op_data.opcode2) {
-        if (o0.as<Vec>().is_vec_d1() && o1.as<Vec>().is_vec_d2()) {
+        if (o0.as<Vec>().is_vec_d1() && o1.as<Vec>().is_vec_d2() && !o0.as<Vec>().has_element_index() && !o1.as<Vec>().has_element_index()) {
           opcode.reset(uint32_t(op_data.opcode2) << 10);
           opcode.add_imm(0x3, 22); // size.
           goto EmitOp_Rd0_Rn5;
@@ -4063,7 +4118,7 @@ Case_BaseLdurStur:
         uint32_t q = diff(o0.as<Reg>().reg_type(), RegType::kVec64);
         uint32_t size = 2;
 
-        if (q > 1u)
+        if (q > 1u || o0.as<Vec>().has_element_index() || o1.as<Vec>().has_element_index())
           goto InvalidInstruction;
 
         if (!o2.as<Vec>().has_element_index()) {
@@ -4133,7 +4188,11 @@ Case_BaseLdurStur:
           // NOTE: This is only scalar for `dup d, x` case, otherwise the value
           // would be duplicated across all vector elements (1, 2, 4, 8, or 16).
           uint32_t element_type = uint32_t(o0.as<Vec>().element_type());
-          if (q > 1 || !Support::bit_test(kValidEncodings, (q << 3) | element_type))
+          if (q > 1 || !Support::bit_test(kValidEncodings, (q << 3) | element_type) || o0.as<Vec>().has_element_index())
+            goto InvalidInstruction;
+
+          // The source is Wn except for 64-bit elements, which require Xn.
+          if (uint32_t(o1.as<Reg>().is_gp64()) != uint32_t(element_type == uint32_t(VecElementType::kD)))
             goto InvalidInstruction;
 
           uint32_t lsb_index = element_type - 1u;
@@ -4145,7 +4204,7 @@ Case_BaseLdurStur:
           goto EmitOp_Rd0_Rn5;
         }
 
-        if (!o1.as<Reg>().is_vec() || !o1.as<Vec>().has_element_index())
+        if (!o1.as<Reg>().is_vec128() || !o1.as<Vec>().has_element_index() || o0.as<Vec>().has_element_index())
           goto InvalidInstruction;
 
         uint32_t dst_index = o1.as<Vec>().element_index();
@@ -4167,7 +4226,7 @@ Case_BaseLdurStur:
         else {
           // DUP - Vec (all) <- Vec[N].
           uint32_t element_type = uint32_t(o0.as<Vec>().element_type());
-          if (q > 1 || !Support::bit_test(kValidEncodings, (q << 3) | element_type))
+          if (q > 1 || !Support::bit_test(kValidEncodings, (q << 3) | element_type) || o0.as<Vec>().element_type() != o1.as<Vec>().element_type())
             goto InvalidInstruction;
 
           uint32_t lsb_index = element_type - 1u;
@@ -4203,7 +4262,10 @@ Case_BaseLdurStur:
           goto InvalidElementIndex;
 
         if (o1.as<Reg>().is_gp()) {
-          // INS - Vec[N] <- GP register.
+          // INS - Vec[N] <- GP register (Wn except for 64-bit elements, which require Xn).
+          if (uint32_t(o1.as<Reg>().is_gp64()) != uint32_t(element_type == uint32_t(VecElementType::kD)))
+            goto InvalidInstruction;
+
           opcode.reset(0b0100111000000000000111 << 10);
           opcode.add_imm(imm5, 16);
           goto EmitOp_Rd0_Rn5;
@@ -4428,7 +4490,9 @@ Case_BaseLdurStur:
         goto InvalidInstruction;
 
       if (isign4 == ENC_OPS3(Reg, Reg, Imm) && op_data.immediate_op) {
-        if (!match_signature(o0, o1, inst_flags))
+        // NOTE: The destination of the long shifts (SSHLL|USHLL{2}) is not validated - asmjit_test_assembler_a64 writes
+        // `sshll2(v1.s2(), v2.s4(), 31)` (the wide operand should be `v1.d2()`) and that form has to keep assembling.
+        if (!(inst_flags & InstDB::kInstFlagLong) && !match_signature(o0, o1, inst_flags))
           goto InvalidInstruction;
 
         if (o2.as<Imm>().value_as<uint64_t>() > 63)
@@ -4524,7 +4588,7 @@ Case_BaseLdurStur:
         if (!size_op.is_valid())
           goto InvalidInstruction;
 
-        if (!o1.as<Vec>().has_element_index())
+        if (!o1.as<Vec>().has_element_index() || !o1.as<Reg>().is_vec128())
           goto InvalidInstruction;
 
         uint32_t x = o0.as<Gp>().is_gp64();
@@ -4669,7 +4733,7 @@ Case_BaseLdurStur:
         // 64-bit | size==11 | opc == 01 | 011
         // 128-bit| size==00 | opc == 11 | 100
         uint32_t xsz = diff(o0.as<Reg>().reg_type(), RegType::kVec8);
-        if (xsz > 4u || o0.as<Vec>().has_element_index())
+        if (xsz > 4u || o0.as<Vec>().has_element_index() || o0.as<Vec>().has_element_type())
           goto InvalidRegType;
 
         if (!check_vec_id(o0))
@@ -4684,6 +4748,10 @@ Case_BaseLdurStur:
           if (m.has_index()) {
             uint32_t opt = shift_op_to_ld_st_opt_map[size_t(m.shift_op())];
             if (opt == 0xFFu)
+              goto InvalidAddress;
+
+            // UXTW|SXTW take a W index, LSL|SXTX take an X index; write-back does not exist with a register index.
+            if (m.index_type() != ((opt & 1u) ? RegType::kGp64 : RegType::kGp32) || m.is_pre_or_post())
               goto InvalidAddress;
 
             uint32_t shift = m.shift();
@@ -4939,7 +5007,7 @@ Case_SimdLdurStur:
         offset_possibility = (1u << sz) * n;
       }
       else if (v.has_element_index()) {
-        if (n != op_data.n)
+        if (n != op_data.n || !v.is_vec128())
           goto InvalidInstruction;
 
         // LDx/STx (single structure).
@@ -4967,6 +5035,10 @@ Case_SimdLdurStur:
         if (q > 1)
           goto InvalidInstruction;
 
+        // The `.1d` arrangement is reserved for LD2/LD3/LD4 and ST2/ST3/ST4 (only LD1/ST1 have it).
+        if (op_data.n != 1 && sz == 3 && q == 0)
+          goto InvalidInstruction;
+
         if (op_data.n == 1)
           opc_s_size |= opc_s_size_by_n_table[n];
 
@@ -4978,8 +5050,9 @@ Case_SimdLdurStur:
         if (m.has_offset() || !m.is_post_index())
           goto InvalidAddress;
 
+        // The post-index register is Xm (never shifted or extended).
         rm = m.index_id();
-        if (rm > 30)
+        if (rm > 30 || m.index_type() != RegType::kGp64 || m.shift() != 0 || m.shift_op() != ShiftOp::kLSL)
           goto InvalidAddress;
 
         // Bit 23 - PostIndex.
